@@ -20,7 +20,7 @@ def run(rep, tier, seed):
         dict(name="drv_buffered", maxinstr=3, maxhist=1, ops="OpsDrvP", points="NoPts", seeds="NoSeeds", prefix="buffered",
              rec_kinds=("U", "A", "V"), max_replay=mr),
         dict(name="drv_dot_seta", maxinstr=3, maxhist=1, ops="OpsDrvC", points="NoPts", seeds="NoSeeds", rec_kinds=("U", "A", "V"), max_replay=mr),
-        dict(name="drv_broadcast_assignment_prod", maxinstr=2 if q else 3, maxhist=1, ops="OpsDrvD", points="NoPts", seeds="NoSeeds", rec_kinds=("U", "A", "V"), max_replay=mr),
+        dict(name="drv_broadcast_assignment_prod", maxinstr=2 if q else 3, maxhist=1, ops="OpsDrvD", points="NoPts", seeds="NoSeeds", rec_kinds=("U", "A", "V"), max_replay=mr or 20000, timeout=1500),
         dict(name="drv_vanishing_intermediates", maxinstr=3, maxhist=1, ops="OpsDrvZ", points="NoPts", seeds="NoSeeds", drvx="XZero", drvv="VCat", drvw="WCat", max_replay=12000 if q else None),
         dict(name="drv_hist2_buffered", maxinstr=2, maxhist=2, ops="OpsDrvP", points="NoPts", seeds="NoSeeds", prefix="buffered",
              rec_kinds=("U", "A", "V"), max_replay=mr),
